@@ -95,47 +95,53 @@ func (ex *Exec) regexMatch(cr *compiledRegex, s Str) *Term {
 		inStr := tc.Ule(posT, n) // position exists (pos <= len)
 		// unanchored search: a match attempt may start at every position
 		active[prog.Start] = tc.Or(active[prog.Start], inStr)
-		// epsilon closure by relaxation
+		// epsilon closure: DFS from every entry state, carrying whether the path needs end-of-text
 		atEnd := tc.Eq(n, posT)
-		for round := 0; round < np; round++ {
-			changed := false
-			for pc := 0; pc < np; pc++ {
-				a := active[pc]
-				if a.IsFalse() {
-					continue
+		entries := active
+		active = make([]*Term, np)
+		for i := range active {
+			active[i] = tc.False
+		}
+		for e := 0; e < np; e++ {
+			if entries[e].IsFalse() {
+				continue
+			}
+			visited := map[[2]int]bool{}
+			var dfs func(pc int, needEnd int)
+			dfs = func(pc int, needEnd int) {
+				k := [2]int{pc, needEnd}
+				if visited[k] || (needEnd == 1 && visited[[2]int{pc, 0}]) {
+					return
 				}
+				visited[k] = true
+				c := entries[e]
+				if needEnd == 1 {
+					c = tc.And(c, atEnd)
+				}
+				active[pc] = tc.Or(active[pc], c)
 				in := &prog.Inst[pc]
-				prop := func(to uint32, cond *Term) {
-					nv := tc.Or(active[to], tc.And(a, cond))
-					if nv != active[to] {
-						active[to] = nv
-						changed = true
-					}
-				}
 				switch in.Op {
 				case syntax.InstAlt, syntax.InstAltMatch:
-					prop(in.Out, tc.True)
-					prop(in.Arg, tc.True)
+					dfs(int(in.Out), needEnd)
+					dfs(int(in.Arg), needEnd)
 				case syntax.InstCapture, syntax.InstNop:
-					prop(in.Out, tc.True)
+					dfs(int(in.Out), needEnd)
 				case syntax.InstEmptyWidth:
-					cond := tc.True
 					ew := syntax.EmptyOp(in.Arg)
-					if ew&syntax.EmptyBeginText != 0 {
-						cond = tc.And(cond, tc.Bool(pos == 0))
-					}
-					if ew&syntax.EmptyEndText != 0 {
-						cond = tc.And(cond, atEnd)
-					}
 					if ew&(syntax.EmptyBeginLine|syntax.EmptyEndLine|syntax.EmptyWordBoundary|syntax.EmptyNoWordBoundary) != 0 {
 						ex.unsupported("regexp: line/word assertions on symbolic strings")
 					}
-					prop(in.Out, cond)
+					if ew&syntax.EmptyBeginText != 0 && pos != 0 {
+						return
+					}
+					ne := needEnd
+					if ew&syntax.EmptyEndText != 0 {
+						ne = 1
+					}
+					dfs(int(in.Out), ne)
 				}
 			}
-			if !changed {
-				break
-			}
+			dfs(e, 0)
 		}
 		for pc := 0; pc < np; pc++ {
 			if prog.Inst[pc].Op == syntax.InstMatch {
